@@ -64,7 +64,11 @@ def gen_specs(run):
         other = copy.deepcopy(base)
         other["rng"] = {"kind": "chacha", "seed": 2 * sid + 1}
         again = copy.deepcopy(base)
-        specs.append({"id": f"c13-{sid}", "group": "fm", "members": [base, other, again], "verifies": [{"mode": "VerifyOnly", "vmembers": [gen.vmember(base, 0)], "log": False}],
+        # a prover handed a stuck external RNG (every output byte equal), and the same statement proved twice with it: the nonces must still be
+        # pairwise distinct inside the proof (they come from the transcript RNG, which is keyed with transcript and witness)
+        stuck = copy.deepcopy(base)
+        stuck["rng"] = {"kind": "const", "byte": 0x5a}
+        specs.append({"id": f"c13-{sid}", "group": "fm", "members": [base, other, again, stuck], "verifies": [{"mode": "VerifyOnly", "vmembers": [gen.vmember(base, 0)], "log": False}],
                       "_conf": [b, m, T, seeded], "with_gens": True})
     return specs
 
@@ -85,7 +89,16 @@ def oracle(run, s, o):
                 run.violation(f"prover (run {mi + 1}) built a transcript RNG without fresh external randomness: {len(fins)} instances for {k_rounds} rounds, "
                               f"{sum(1 for x in fins if x[2] == '00' * 32)} finalised with zero bytes (bits={b}, m={m}, T={T}, seeded={seeded})", rp)
                 return
-    A, B, C = (slots_of(ms, mo) for ms, mo in zip(s["members"], o["members"]))
+    A, B, C, S = (slots_of(ms, mo) for ms, mo in zip(s["members"], o["members"]))
+    inv = {}
+    for k_, v_ in S.items():
+        inv.setdefault(v_, []).append(k_)
+    dupS = [ks for ks in inv.values() if len(ks) > 1]
+    zeroS = [k_ for k_, v_ in S.items() if v_ == 0]
+    run.bump("stuck external RNG")
+    if dupS or zeroS:
+        run.violation(f"under a stuck external RNG (all bytes 0x5a) nonces are reused or zero within one proof (bits={b}, m={m}, T={T}, seeded={seeded}): {(dupS or zeroS)[:3]}", rp)
+        return
     run.count(["c13", b, m, T, seeded], {"bits": b, "m": m, "T": T, "seeded": seeded, "slots": len(A)})
     run.bump("seeded" if seeded else "unseeded")
     run.bump(f"T={T}")
@@ -142,7 +155,7 @@ def run(run: Run):
         "proof",
         "per configuration (with and without a recovery seed) three proving runs: two with different RNG streams and a repeat of the first; every nonce (alpha_k, dL_jk, dR_jk, "
         "d_k, eta_k from the coordinates on Gb_k over the free-module group; r, s from the RNG log) must be non-zero, pairwise distinct within a proof, unshared between runs with "
-        "different randomness (without seed), equal to the documented function of the seed (with seed) while r, s still differ; both runs compared with the Coq prover + source-map "
+        "different randomness (without seed), equal to the documented function of the seed (with seed) while r, s still differ; a fourth run with a stuck external RNG must still have pairwise distinct non-zero nonces; both runs compared with the Coq prover + source-map "
         "model coordinate by coordinate; distinct by (bits, m, T, seeded)",
         [],
         TRUSTED)
